@@ -444,6 +444,30 @@ class RefSchema:
                 if not any(self.generatable(x) for x in first(st)):
                     raise SchemaRejected("dead end in " + t.name)
         self._minsize = None
+        # stronger reading of "required positions that only non-generatable nodes can
+        # fill": from every reachable state an accepting state must be reachable through
+        # generatable types alone (upstream only looks at the immediate edges)
+        self.strong_dead_ends = []
+        for t in self.nodes.values():
+            for st in reachable(t.regex):
+                if not self._gen_accepting_reachable(st):
+                    self.strong_dead_ends.append(t.name)
+                    break
+
+    def _gen_accepting_reachable(self, st):
+        seen = {st}
+        work = [st]
+        while work:
+            x = work.pop()
+            if nullable(x):
+                return True
+            for s_ in first(x):
+                if self.generatable(s_):
+                    y = deriv(x, s_)
+                    if y not in seen:
+                        seen.add(y)
+                        work.append(y)
+        return False
 
     # -- names
     def resolve(self, name):
